@@ -274,7 +274,7 @@ type coalAbs struct {
 	Id, Seq, Ack, X2, Flags, Win, Urg               uint64
 	Opts                                            []byte
 	Ipck, L4ck                                      uint64
-	Pay, Slack, Trail, Raw                          []byte
+	Pay, Trail, Raw                                 []byte
 }
 
 type coalPP struct {
@@ -401,7 +401,7 @@ func coalAbstract(b []byte, pp coalPP) *coalAbs {
 		return opaque("ShBadLen")
 	}
 	ul := int(binary.BigEndian.Uint16(ip[iph+4 : iph+6]))
-	if ul < 8 || ul > len(ip)-iph {
+	if ul < 8 || ul != len(ip)-iph { // the UDP length must be exactly the IP payload length (F26)
 		return opaque("ShBadLen")
 	}
 	a.Shape = "ShUdp"
@@ -409,7 +409,6 @@ func coalAbstract(b []byte, pp coalPP) *coalAbs {
 	a.Dport = uint64(binary.BigEndian.Uint16(ip[iph+2 : iph+4]))
 	a.L4ck = uint64(binary.BigEndian.Uint16(ip[iph+6 : iph+8]))
 	a.Pay = append([]byte(nil), ip[iph+8:iph+ul]...)
-	a.Slack = append([]byte(nil), ip[iph+ul:]...)
 	return a
 }
 
@@ -429,27 +428,96 @@ func coalStream(s uint64, n int) []byte {
 
 type coalLits struct {
 	streams map[string][2]uint64 // content of a generated payload -> (stream, length)
+	tplIdx  map[string]int       // template literal -> index in tpls
+	tpls    []string
 }
 
+func coalNewLits() *coalLits {
+	return &coalLits{streams: map[string][2]uint64{}, tplIdx: map[string]int{}}
+}
+
+func coalHex(b []byte) string {
+	// long string literals nest deeply inside coqc: cut them
+	const piece = 1024
+	if len(b) <= piece {
+		return "(hx \"" + hex.EncodeToString(b) + "\")"
+	}
+	var parts []string
+	for len(b) > 0 {
+		n := min(piece, len(b))
+		parts = append(parts, "hx \""+hex.EncodeToString(b[:n])+"\"")
+		b = b[n:]
+	}
+	return "(" + strings.Join(parts, " ++ ") + ")"
+}
+
+// bytes prints a byte string: a generated payload stream (or a blob that contains the beginning of one: opaque
+// packets, truncated packets) is printed as the stream expression, which Coq expands to the same bytes.
 func (l *coalLits) bytes(b []byte) string {
 	if len(b) == 0 {
 		return "[]"
 	}
-	if len(b) > 20 {
-		if r, ok := l.streams[string(b)]; ok {
-			return fmt.Sprintf("(pl %d %d)", r[0], r[1])
+	if len(b) <= 20 {
+		return coalHex(b)
+	}
+	if r, ok := l.streams[string(b)]; ok {
+		return fmt.Sprintf("(pl %d %d)", r[0], r[1])
+	}
+	if len(b) > 64 {
+		for content, r := range l.streams {
+			if len(content) < 32 {
+				continue
+			}
+			i := bytes.Index(b, []byte(content[:16]))
+			if i < 0 {
+				continue
+			}
+			m := 0
+			for i+m < len(b) && m < len(content) && b[i+m] == content[m] {
+				m++
+			}
+			if m < 32 {
+				continue
+			}
+			parts := []string{}
+			if i > 0 {
+				parts = append(parts, coalHex(b[:i]))
+			}
+			parts = append(parts, fmt.Sprintf("(pl %d %d)", r[0], m))
+			if i+m < len(b) {
+				parts = append(parts, l.bytes(b[i+m:]))
+			}
+			return "(" + strings.Join(parts, " ++ ") + ")"
 		}
 	}
-	return "(hx \"" + hex.EncodeToString(b) + "\")"
+	return coalHex(b)
 }
 
-func (l *coalLits) pkt(a *coalAbs) string {
-	var sb strings.Builder
-	fmt.Fprintf(&sb, "(mkPkt %d %s %s %s %s %d %d %d %d %d %d %s %s %d %d %d %d %d %d %d %s %d %d %s %s %s %s)",
+func (l *coalLits) full(a *coalAbs) string {
+	return fmt.Sprintf("(mkPkt %d %s %s %s %s %d %d %d %d %d %d %s %s %d %d %d %d %d %d %d %s %d %d %s %s %s)",
 		a.Proto, a.Shape, hx.Bool(a.V6), a.Src.String(), a.Dst.String(), a.Sport, a.Dport, a.Tos, a.Flow, a.Ttl, a.Nxt,
 		hx.Bool(a.Df), hx.Bool(a.Rsv), a.Id, a.Seq, a.Ack, a.X2, a.Flags, a.Win, a.Urg, l.bytes(a.Opts), a.Ipck, a.L4ck,
-		l.bytes(a.Pay), l.bytes(a.Slack), l.bytes(a.Trail), l.bytes(a.Raw))
-	return sb.String()
+		l.bytes(a.Pay), l.bytes(a.Trail), l.bytes(a.Raw))
+}
+
+// pkt prints a packet literal (Coalesce_corr.plit).  Well-formed packets of one flow differ in a handful of fields,
+// so they are printed as "template t with id, seq, flags, checksums, payload replaced" (U); the template is the packet
+// itself with those fields blanked, so the expansion in Coq is the packet again by construction.  Everything else
+// is printed in full (F).
+func (l *coalLits) pkt(a *coalAbs) string {
+	if (a.Shape != "ShTcp" && a.Shape != "ShUdp") || len(a.Trail) > 0 || len(a.Raw) > 0 {
+		return "(F " + l.full(a) + ")"
+	}
+	t := *a
+	t.Id, t.Seq, t.Flags, t.Ipck, t.L4ck, t.Pay = 0, 0, 0, 0, 0, nil
+	tl := l.full(&t)
+	idx, ok := l.tplIdx[tl]
+	if !ok {
+		idx = len(l.tpls)
+		l.tplIdx[tl] = idx
+		l.tpls = append(l.tpls, tl)
+	}
+	return fmt.Sprintf("(U %d %d %d %d %d %d %s)", idx, a.Id, a.Seq, a.Flags, a.Ipck, a.L4ck, l.bytes(a.Pay))
 }
 
 // ---- the recording GSOWriter --------------------------------------------------------------------------
@@ -703,7 +771,7 @@ func coalRunBatch(ins []*coalIn, tso, uso, plainWriter bool, lits *coalLits) (re
 		for i, p := range c.pays {
 			pays[i] = lits.bytes(p)
 		}
-		wLits = append(wLits, fmt.Sprintf("(WG (mkGso %d %s %d %d %s))", uint8(c.proto), lits.pkt(h), iplen, udplen, hx.List(pays)))
+		wLits = append(wLits, fmt.Sprintf("(WG %d %s %d %d %s)", uint8(c.proto), lits.pkt(h), iplen, udplen, hx.List(pays)))
 		segs, ok := coalSegment(c)
 		if !ok {
 			csumOK = false
@@ -717,8 +785,8 @@ func coalRunBatch(ins []*coalIn, tso, uso, plainWriter bool, lits *coalLits) (re
 			sLits = append(sLits, "(SP "+lits.pkt(coalAbstract(sg, pp))+")")
 		}
 	}
-	res.lit = fmt.Sprintf("(CBatch %s %s\n %s\n %s\n %s\n %s)", hx.Bool(tso && !plainWriter), hx.Bool(uso && !plainWriter),
-		hx.List(inLits), hx.List(wLits), hx.List(sLits), hx.Bool(csumOK && parseOK && !panicked))
+	res.lit = fmt.Sprintf("(CBatch %s %s\n %s\n %s\n %s\n %s\n %s)", hx.Bool(tso && !plainWriter), hx.Bool(uso && !plainWriter),
+		hx.List(lits.tpls), hx.List(inLits), hx.List(wLits), hx.List(sLits), hx.Bool(csumOK && parseOK && !panicked))
 	return res
 }
 
@@ -737,6 +805,7 @@ type coalGenState struct {
 	c       *hx.Ctx
 	lits    *coalLits
 	nextStr uint64
+	bigPackets int // packets of the batch under construction (bounds the payload volume of large-payload batches)
 	ppCache map[string]coalPP
 	ppKind  map[string]string
 }
@@ -826,6 +895,9 @@ func (g *coalGenState) newFlow(forceL4 int, big bool) *coalFlow {
 	bigs := []int{100, 536, 1200, 1448, 1460, 8960, 32000, 65000}
 	if big {
 		f.mss = bigs[c.Intn(len(bigs))]
+		for f.mss*g.bigPackets > 150000 && f.mss > 100 {
+			f.mss /= 2
+		}
 	} else {
 		f.mss = small[c.Intn(len(small))]
 	}
@@ -1043,6 +1115,7 @@ func (g *coalGenState) mkIn(s *coalSpec, epoch, ctr uint64) *coalIn {
 // batch builds one batch: nflows flows interleaved in runs, two sessions, arrival order shuffled.
 func (g *coalGenState) batch(npk, nflows int, big bool, shuffle int, forceL4 int) []*coalIn {
 	c := g.c
+	g.bigPackets = npk
 	flows := make([]*coalFlow, nflows)
 	for i := range flows {
 		flows[i] = g.newFlow(forceL4, big)
@@ -1086,13 +1159,23 @@ func (g *coalGenState) batch(npk, nflows int, big bool, shuffle int, forceL4 int
 }
 
 func coalRun(c *hx.Ctx) {
-	perShard := 150
+	perShard := (c.N + 15) / 16 // shards are evaluated in parallel; at most 150 batches per shard
+	if perShard < 8 {
+		perShard = 8
+	}
+	if perShard > 150 {
+		perShard = 150
+	}
 	cw := c.NewCaseWriter("From Coq Require Import String.\nFrom NV Require Import model.Coalesce corr.Coalesce_corr.", "Coalesce_corr.case", "Coalesce_corr.check_case", perShard)
-	g := &coalGenState{c: c, lits: &coalLits{streams: map[string][2]uint64{}}, ppCache: map[string]coalPP{}, ppKind: map[string]string{}}
+	g := &coalGenState{c: c, lits: coalNewLits(), ppCache: map[string]coalPP{}, ppKind: map[string]string{}}
 	totalPk, totalGSO, totalSegs := 0, 0, 0
 
 	emit := func(ins []*coalIn, tso, uso, plain bool, kind string) {
 		res := coalRunBatch(ins, tso, uso, plain, g.lits)
+		nbytes := 0
+		for _, in := range ins {
+			nbytes += len(in.bytes)
+		}
 		notes := map[string]int{}
 		for _, in := range ins {
 			if in.spec != nil && in.spec.Note != "" {
@@ -1106,7 +1189,7 @@ func coalRun(c *hx.Ctx) {
 		totalSegs += res.nSegs
 		desc := map[string]any{"packets": len(ins), "tso": tso, "uso": uso, "plain_writer": plain, "gso_writes": res.nGSO,
 			"delivered_after_segmentation": res.nSegs, "mix": notes, "panicked": res.panicked}
-		if len(ins) <= 12 {
+		if len(ins) <= 12 && nbytes <= 4096 {
 			var hs []string
 			for _, in := range ins {
 				hs = append(hs, fmt.Sprintf("e%d c%d pp{%d %v %d} %s", in.epoch, in.ctr, in.pp.Proto, in.pp.FragAny, in.pp.IPHdr, hex.EncodeToString(in.bytes)))
@@ -1115,7 +1198,7 @@ func coalRun(c *hx.Ctx) {
 		}
 		cw.Add(res.lit, kind, res.nGSO > 0, desc)
 		// every batch starts from fresh literal tables
-		g.lits.streams = map[string][2]uint64{}
+		g.lits = coalNewLits()
 		g.ppCache = map[string]coalPP{}
 		g.ppKind = map[string]string{}
 	}
@@ -1249,6 +1332,17 @@ func coalRun(c *hx.Ctx) {
 			for _, caps := range [][3]bool{{true, false, false}, {false, true, false}, {false, false, false}, {true, true, true}} {
 				emit(chain(4, 8, nil), caps[0], caps[1], caps[2], "corpus-caps")
 			}
+			if l4 == 17 {
+				// F26: a UDP datagram shorter than its IP payload must ride verbatim, with its trailing bytes
+				for _, at := range []int{0, 1, 2} {
+					at := at
+					emit(chain(3, 4, func(i int, s *coalSpec) {
+						if i == at {
+							s.Slack = []byte{0xaa, 0xbb, 0xcc}
+						}
+					}), true, true, false, "corpus-udp-shorter-than-ip-payload")
+				}
+			}
 			if l4 == 6 {
 				for _, fl := range []byte{0x18, 0x11, 0x12, 0x14, 0x30, 0x90, 0x50, 0x00, 0x08} {
 					fl := fl
@@ -1287,9 +1381,9 @@ func coalRun(c *hx.Ctx) {
 		case r < 70:
 			npk = 60 + c.Intn(240)
 		}
-		big := c.Chance(0.08)
-		if big && npk > 120 {
-			npk = 120
+		big := c.Chance(0.06)
+		if big && npk > 100 {
+			npk = 100
 		}
 		nflows := 1 + c.Intn(6)
 		if c.Chance(0.3) {
@@ -1323,4 +1417,3 @@ func coalRun(c *hx.Ctx) {
 	cw.Close("one case = one batch (Commit* + Flush) through the real MultiCoalescer; nontrivial = the batch produced at least one WriteGSO superpacket")
 }
 
-var _ = bytes.Equal
